@@ -126,6 +126,24 @@ impl PartialEq for Value {
         ensures (jv(*self) is Str || jv(*other) is Str) ==> r == (jv(*self) == jv(*other))
     { unimplemented!() }
 }
+impl<'a> PartialEq<&'a str> for Value {
+    #[verifier::external_body]
+    fn eq(&self, other: &&'a str) -> (r: bool)
+        ensures r == (jv(*self) == J::Str((*other)@))
+    { unimplemented!() }
+}
+impl PartialEq<str> for Value {
+    #[verifier::external_body]
+    fn eq(&self, other: &str) -> (r: bool)
+        ensures r == (jv(*self) == J::Str(other@))
+    { unimplemented!() }
+}
+impl vstd::std_specs::fmt::DisplaySpecImpl for Value {
+    open spec fn fmt_req(&self, f: &core::fmt::Formatter) -> bool { true }
+}
+#[verifier::external]
+impl core::fmt::Display for Value { fn fmt(&self, _f: &mut core::fmt::Formatter<'_>) -> core::fmt::Result { unimplemented!() } }
+pub open spec fn dmj(h: vstd::map::Map<Seq<char>, Value>) -> vstd::map::Map<Seq<char>, J> { h.map_values(|v: Value| jv(v)) }
 impl<'a> IntoIterator for &'a Map<String, Value> {
     type Item = &'a (String, Value);
     type IntoIter = std::slice::Iter<'a, (String, Value)>;
@@ -214,6 +232,12 @@ impl<'q, V> core::ops::Index<&'q String> for HashMap<String, V> {
     { unimplemented!() }
 }
 #[verifier::external]
+impl FromIterator<(String, Value)> for Value { fn from_iter<I: IntoIterator<Item = (String, Value)>>(_i: I) -> Self { unimplemented!() } }
+#[verifier::external]
+impl FromIterator<Value> for Value { fn from_iter<I: IntoIterator<Item = Value>>(_i: I) -> Self { unimplemented!() } }
+#[verifier::external]
+impl FromIterator<(String, Value)> for Map<String, Value> { fn from_iter<I: IntoIterator<Item = (String, Value)>>(_i: I) -> Self { unimplemented!() } }
+#[verifier::external]
 impl<K, V> FromIterator<(K, V)> for HashMap<K, V> { fn from_iter<I: IntoIterator<Item = (K, V)>>(_i: I) -> Self { unimplemented!() } }
 pub fn min_usize(a: usize, b: usize) -> (r: usize) ensures r == (if a <= b { a } else { b }) { if a <= b { a } else { b } }
 pub uninterp spec fn slice_contains_spec<T>(s: Seq<T>, x: T) -> bool;
@@ -237,11 +261,16 @@ pub broadcast axiom fn axiom_value_eq(a: crate::shim::Value, b: crate::shim::Val
     ensures (crate::shim::jv(a) is Str || crate::shim::jv(b) is Str) ==> (#[trigger] <crate::shim::Value as vstd::std_specs::cmp::PartialEqSpec<crate::shim::Value>>::eq_spec(&a, &b) == (crate::shim::jv(a) == crate::shim::jv(b)));
 pub broadcast axiom fn axiom_value_obeys()
     ensures #[trigger] <crate::shim::Value as vstd::std_specs::cmp::PartialEqSpec<crate::shim::Value>>::obeys_eq_spec();
+pub broadcast axiom fn axiom_value_str_ne<'a>(a: crate::shim::Value, b: &'a str)
+    ensures #[trigger] <crate::shim::Value as vstd::std_specs::cmp::PartialEqSpec<&'a str>>::eq_spec(&a, &b) == (crate::shim::jv(a) == crate::shim::J::Str(b@));
+pub broadcast axiom fn axiom_value_str_obeys<'a>()
+    ensures #[trigger] <crate::shim::Value as vstd::std_specs::cmp::PartialEqSpec<&'a str>>::obeys_eq_spec();
 pub broadcast axiom fn axiom_string_str_obeys()
     ensures #[trigger] <String as vstd::std_specs::cmp::PartialEqSpec<str>>::obeys_eq_spec();
 }
 use shim::*;
 use shim::{Map, HashMap, Value};
+pub mod serde_json { pub use crate::shim::{Map, Value}; }
 pub assume_specification<T: Clone> [<T as std::borrow::ToOwned>::to_owned] (x: &T) -> (r: T) ensures r == *x;
 pub assume_specification<T: PartialEq> [<[T]>::contains] (s: &[T], x: &T) -> (r: bool)
     ensures r == slice_contains_spec(s@, *x);
